@@ -50,21 +50,24 @@ def run (aip2 : Bool) : List (String × String) → List String → Option (List
     pure ((m, s) :: rest)
 
 /-- DID rotation cases (`rot,<style>|ops`, harness/cmd/corr/c10rot.go): exact prediction by `Conn.Rot.step` -/
-def rotRun (absIds : Bool) : List String → List String → Option (List String)
-  | _, [] => some []
-  | conns, op :: ops =>
+def rotRun (absIds : Bool) : List String → List (String × String) → List String → Option (List String)
+  | _, _, [] => some []
+  | conns, ths, op :: ops =>
     let shown (ok : Bool) (c : List String) := (if ok then "ok" else "err") ++ "[" ++ ",".intercalate c ++ "]"
     match op.splitOn " " with
     | ["rot", signer, iss, sub, kidOf, env] =>
       let r := Conn.Rot.step absIds conns ⟨signer, iss, sub, kidOf, env⟩
-      (rotRun absIds r.1 ops).map (shown r.2 r.1 :: ·)
-    | ["msg", env] => (rotRun absIds conns ops).map (shown (Conn.Rot.plain conns env) conns :: ·)
+      (rotRun absIds r.1 ths ops).map (shown r.2 r.1 :: ·)
+    | ["msg", env] => (rotRun absIds conns ths ops).map (shown (Conn.Rot.plain conns env) conns :: ·)
+    -- the thread id -> connection index: a map keyed by the WHOLE thread id (`Conn.Rot.threadPut` / `threadGet`)
+    | ["ths", t, c] => (rotRun absIds conns (Conn.Rot.threadPut ths t c) ops).map ("ok" :: ·)
+    | ["thg", t] => (rotRun absIds conns ths ops).map ((Conn.Rot.threadGet ths t).getD "none" :: ·)
     | _ => none
 
 def judgeRot (input impl : String) : String × String × String :=
   match input.splitOn "|" with
   | [cfg, opsS] =>
-    match rotRun (cfg.endsWith "abs") ["b", "m"] (opsS.splitOn ";") with
+    match rotRun (cfg.endsWith "abs") ["b", "m"] [] (opsS.splitOn ";") with
     | none => ("bad-op", "bad-op", "")
     | some outs =>
       let exp := "|".intercalate outs
